@@ -44,6 +44,9 @@
     [:wclose pi] (fn [] (ev/close ((pipes pi) 1)) :closed)
     [:pwait k] (fn [] (os/proc-wait (procs k)))
     [:write-bad pi tmo] (fn [] (ev/write ((pipes pi) 1) 12345 tmo))
+    # a call that raises synchronously (invalid data) followed, in the same fiber turn, by a real wait
+    [:badw pi tmo inner] (let [t (make-thunk inner chans)]
+                           (fn [] (protect (ev/write ((pipes pi) 1) 12345 tmo)) (t)))
     (errorf "bad op %p" op)))
 
 (defn run-history [item]
